@@ -111,6 +111,24 @@ def judgeOptionsMarshal (os : List Opt) (n0 : Int) (err0 : String) (nSize nCanar
       | none => .violates "encode-equals-rfc"
   else .skip
 
+/-! ### C01 through the real entry points -/
+
+/-- A stream of encodings of well-formed messages, written to a connection in any chunks: the application receives
+exactly those messages, in order, and the connection stays open ("decoding the result yields an equal message and
+consumes exactly the bytes produced" — the next frame starts exactly where the previous one ended). -/
+def judgeStream (msgs : List Msg) (delivered : List (Option Msg)) (closed : Bool) : Verdict :=
+  if msgs.all (fun m => WF .tcp m) then
+    if !closed ∧ delivered = msgs.map (fun m => some (canon .tcp m)) then .ok else .violates "stream-roundtrip"
+  else .skip
+
+/-- The scenario's handler: 2.05 Content, Content-Format 42, the request's payload, piggybacked on the ACK. -/
+def echoResponse (mid : Int) (tok pay : Bytes) : Msg := ⟨2, mid, 69, tok, [⟨12, [42]⟩], pay⟩
+
+/-- Every datagram a connection wrote decodes (reference parser) to the message the application handed to it for that
+exchange — also when it is sent again for a duplicate of the request. -/
+def judgeExchange (expected : List Msg) (sent : List Bytes) : Verdict :=
+  if sent.map Rfc7252.parse = expected.map some then .ok else .violates "reply-roundtrip"
+
 /-- Result of a decoder call: error name or (message, consumed). -/
 structure DecObs where
   err : String
